@@ -27,7 +27,7 @@ from model.params import Q, R
 from model import fields as F
 from model import rfc9380 as RF
 from model import encoding as EN
-from model.curves import E1, E2, g1_gen, g2_gen
+from model.curves import E1, E2, FQ, FQ2, g1_gen, g2_gen
 
 ID = "C20"
 BUILDS = ("rel", "chk")
@@ -129,6 +129,10 @@ def build_script(seed, size=1.0, micro=False):
         par.op("g1.addm", J1[i], A1[j]); par.op("g2.dbl", J2[i]); par.op("g1.to_affine", J1[i]); par.op("g2.to_affine", J2[j])
         par.op("g1.mul", J1[i], V.RR(rng.getrandbits(255))); par.op("g2.amul", A2[j], V.RR(rng.getrandbits(128)))
         par.op("g1.batch_norm", V.lst([J1[i], J1[j], J1[(i + 1) % 4]]))
+        if _ < 2:
+            # long batches on threads with the default (2 MiB) stack: the result must not depend on the calling thread
+            par.op("g2.batch_norm_n", J2[j], V.n(rng.choice([3000, 4200, 6000])))
+            par.op("g1.batch_norm_n", J1[i], V.n(rng.choice([5000, 9000, 12000])))
         par.op("g1.wnaf_exp", tab1, dig1); par.op("g2.wnaf_exp", tab2, dig2)
         par.op("g1.shared_scalar", V.RR(rng.getrandbits(255))); par.op("g2.shared_scalar", V.RR(rng.getrandbits(255)))
         par.op("g1.shared_base", J1[i]); par.op("g2.shared_base", J2[j])
@@ -266,6 +270,45 @@ def first_calls_script(seed):
     return s.lines
 
 
+def ctx_history_script(seed):
+    """Long-lived helper objects: a wNAF context that has been used before must return, for the same call, the very
+    bits a fresh context returns. Each case is (fresh context: call X) vs (context with a history: ..., call X); the
+    histories stage the same point in another representation, the same point normalised, another point with the same
+    / another window, the same scalar again. Returns (script text, [(id fresh, id reused, label)])."""
+    rng = G.rng_for(seed, ID, "ctx-history")
+    s = H.Script()
+    pairs = []
+    for g_, gpn, c_, gen in ((1, "g1", E1, g1_gen()), (2, "g2", E2, g2_gen())):
+        for case in range(10):
+            P = c_.mul(rng.randrange(1, R), gen)
+            Qp = c_.mul(rng.randrange(1, R), gen)
+            lam = G.rand_fe(g_, rng)
+            one = FQ.one if g_ == 1 else FQ2.one
+            reps = {"z=l": V.proj(g_, *G.rescale(g_, P, lam)), "z=1": V.proj(g_, P[0], P[1], one),
+                    "z=l2": V.proj(g_, *G.rescale(g_, P, G.rand_fe(g_, rng))), "other": V.proj(g_, *G.rescale(g_, Qp, lam))}
+            ks = V.lst([V.RR(rng.getrandbits(255)) for _ in range(3)])
+            num = rng.choice([1, 3, 20, 200])
+            first, second = [("z=l", "z=1"), ("z=1", "z=l"), ("z=l", "z=l2"), ("other", "z=l"), ("z=l", "z=l")][case % 5]
+            num1 = num if case < 5 else rng.choice([1, 3, 20, 200])
+            fresh = s.op(gpn + ".ctx_new")
+            a = s.op(gpn + ".ctx_base", fresh, reps[second], V.n(num), ks, V.n(case % 2))
+            used = s.op(gpn + ".ctx_new")
+            s.op(gpn + ".ctx_base", used, reps[first], V.n(num1), ks, V.n(0))
+            b = s.op(gpn + ".ctx_base", used, reps[second], V.n(num), ks, V.n(case % 2))
+            pairs.append((a.id, b.id, "%s base: %s (n=%d) then %s (n=%d)" % (gpn, first, num1, second, num)))
+            # scalar-first staging: same scalar again / another scalar first
+            k1, k2 = V.RR(rng.getrandbits(255)), V.RR(rng.getrandbits(rng.choice([64, 255])))
+            bs = V.lst([reps["z=l"], reps["z=1"]])
+            fresh = s.op(gpn + ".ctx_new")
+            a = s.op(gpn + ".ctx_scalar", fresh, k1, bs, V.n(case % 2))
+            used = s.op(gpn + ".ctx_new")
+            s.op(gpn + ".ctx_scalar", used, k2 if case % 2 else k1, bs, V.n(0))
+            s.op(gpn + ".ctx_base", used, reps["other"], V.n(num1), ks, V.n(0))
+            b = s.op(gpn + ".ctx_scalar", used, k1, bs, V.n(case % 2))
+            pairs.append((a.id, b.id, "%s scalar: staged scalar, staged base, same scalar again" % gpn))
+    return s.text(), pairs
+
+
 def long_history_script(seed, tier):
     """One thread, a long call history that is PERIODIC at the scales where small counters wrap (256 and 65536 calls or
     Pippenger windows) and that returns to earlier operands after more distinct operands than any plausible cache
@@ -397,6 +440,37 @@ def parse_par_log(text):
     return prelude, S, X, Fp, ended
 
 
+def teardown_lines(text):
+    """('TS', digest) of the main thread and [(round, thread, digest)] of the calls made from thread-local destructors"""
+    ts, tl = None, []
+    for line in text.splitlines():
+        if line.startswith("TS "):
+            ts = line.split(" ", 1)[1]
+        elif line.startswith("T "):
+            _, rnd, th, d = line.split(" ", 3)
+            tl.append((int(rnd), int(th), d))
+    return ts, tl
+
+
+_TEARDOWN = []
+
+
+def teardown_expected():
+    """the model's value of the driver's exit_calls()"""
+    if not _TEARDOWN:
+        g1, g2 = g1_gen(), g2_gen()
+        k0 = 0x123456789abcdef0 | (7 << 64) | (0 << 128) | ((1 << 62) << 192)
+        k1 = 3 | (0 << 64) | (0xffffffffffffffff << 128) | (5 << 192)
+        P = E1.add(E1.mul(k0, g1), E1.mul(k1, E1.add(g1, g1)))
+        out = EN.encode(1, P, True) * 2
+        out += EN.encode(1, RF.hash_to_curve(1, "sha256", b"thread teardown", b"C20-exit"), True)
+        out += EN.encode(2, g2, False)
+        out += EN.encode(2, E2.mul(k1, g2), True)
+        out += (1).to_bytes(48, "big") + bytes(11 * 48)
+        _TEARDOWN.append(out.hex())
+    return _TEARDOWN[0]
+
+
 def judge_par(ctx, rec, res):
     """model judgement of a baseline record (adds the parallel-only ops)"""
     name = rec.op.split(".")[-1]
@@ -449,6 +523,21 @@ def check_threaded(res, text, script, pre, par, leg, judge_model=True):
                 if len(res.violations) > 10:
                     return True
     res.info["thread executions compared (%s)" % leg] += nexec
+    # library calls made from thread-local destructors (thread teardown) against the same calls on the main thread / the model
+    ts, tl = teardown_lines(text)
+    if ts is not None:
+        res.evals += 1
+        if not leg.startswith("miri") and ts != teardown_expected():
+            res.violations.append(dict(kind="mismatch", build=leg, id=None, line="exit_calls() on the main thread", expected=teardown_expected()[:400],
+                                       observed=ts[:400], script=script))
+        for rnd, th, d in tl:
+            res.evals += 1
+            res.classes[("teardown", th)] += 1
+            if d != ts:
+                res.violations.append(dict(kind="nondeterminism", build=leg, id=None, line="library calls from a thread-local destructor (round %d thread %d)" % (rnd, th),
+                                           expected="the same outputs as on the main thread: " + ts[:300], observed=d[:300], script=script))
+                break
+        res.info["thread-teardown call groups compared"] += len(tl)
     for (rnd, fp, sw, ev) in Fp:
         res.classes[("interleaving", fp)] += 1
         res.extra.setdefault("fingerprints", {})[fp] = [sw, ev]
@@ -575,6 +664,39 @@ def main(tier, seed, procs):
                                                    expected="same raw output as in another call order: " + rel_S[i][:500], observed=out[:500], script=seq))
                         break
             res.info["history orders compared"] += 1
+        # ---- helper objects with a history against fresh ones (raw output bits)
+        ch, chp = ctx_history_script(seed)
+        sp, lp = os.path.join(wd, "ctxhist.txt"), os.path.join(wd, "ctxhist.log")
+        open(sp, "w").write(ch)
+        rcx, secs, errx = H.run_driver(H.build("rel"), sp, lp, 600)
+        raw = {}
+        if os.path.exists(lp):
+            for line in open(lp):
+                if line.startswith("E "):
+                    _, i, rest = line.rstrip("\n").split(" ", 2)
+                    raw[int(i)] = rest
+        if rcx != 0 or len(raw) < 2 * len(chp):
+            res.inconclusive.append("context-history run failed rc=%s" % rcx)
+        else:
+            recs = H.parse_script(ch)
+            H.apply_log(recs, open(lp).read(), "rel-ctx-history")
+            H.resolve_args(recs)
+            ctxh = spec.Ctx(recs, "rel-ctx-history")
+            for r in recs.values():
+                if r.status in ("missing", "bad") or r.args is None or r.op.endswith("ctx_new"):
+                    continue
+                v = spec.judge(ctxh, r, res)
+                if v is not None and v is not spec.SKIP:
+                    res.violations.append(dict(kind="mismatch", build="rel-ctx-history", id=r.id, line=r.line[:1500], expected=str(v)[:800], observed=r.status, script=H.closure(ch, r.id)))
+            for a_, b_, label in chp:
+                res.evals += 1
+                res.classes[("ctx-history", label)] += 1
+                if raw[a_] != raw[b_]:
+                    res.violations.append(dict(kind="history-dependence", build="rel-ctx-history", id=b_, line=recs[b_].line[:1500],
+                                               expected="the raw output of the same call on a fresh context (%s): %s" % (label, raw[a_][:500]),
+                                               observed=raw[b_][:500], script=ch))
+                    break
+            res.info["context-history pairs compared (raw bits)"] += len(chp)
         # ---- long sequential history (periodic at counter-wrap scales, returns to earlier operands), judged by the model
         lh = long_history_script(seed, tier)
         sp, lp = os.path.join(wd, "longhist.txt"), os.path.join(wd, "longhist.log")
